@@ -34,6 +34,25 @@ def closest(x, q):
     return lo if (q - x[lo]) <= (x[hi] - q) else hi
 
 
+def closest_exact(x, q):
+    """closest() with the two distances compared in exact rational arithmetic (floats are dyadic rationals, Python ints are
+    exact): what 'the nearest element' means when the rounded difference of two floats cannot tell the distances apart"""
+    from fractions import Fraction
+    n = len(x)
+    if q <= x[0]:
+        return 0
+    if q >= x[n - 1]:
+        return n - 1
+    lo = lower(x, q)
+    if x[lo] == q:
+        return lo
+    hi = lo + 1
+    a, b, c = x[lo], q, x[hi]
+    if any(isinstance(v, float) and (v != v or v in (float("inf"), float("-inf"))) for v in (a, b, c)):
+        return lo if (b - a) <= (c - b) else hi
+    return lo if Fraction(b) - Fraction(a) <= Fraction(c) - Fraction(b) else hi
+
+
 def search(x, qs, strategy, fill=True):
     if strategy == "lower":
         return [lower(x, q, fill) for q in qs]
